@@ -212,7 +212,7 @@ CHECKS = {
              "assert true and every divisor non-zero), C20_asserts_silent_rebased_partial (same with index bases, reindexed, "
              "blocked; excluded and refuted: diagonal() on re-based views), C20_iterator_/elements_/assign_silent; "
              "C20_asserts_fire_on_oob, C20_index_guard, C20_guarded_access_in_bounds (chained brackets abort exactly when an index is "
-             "outside its extension, at that level, otherwise the address lies inside the root); C20_assign_fire (every overload class of view assignment, move-assignment, swap and array_ref assignment betwe"
+             "outside its extension, at that level, otherwise the address lies inside the root); C20_index_receiver_irrelevant / C20_index_guard_any_receiver (the same for every receiver kind -- const_subarray, subarray, move_subarray, array_ref, array, static_array as lvalue, const lvalue, rvalue, temporary, result of unary + -- and every entry point that goes through operator[]), C20_index_guard_extensions_only, C20_unchecked_first_level / C20_front_back_iterator_in_range, C20_cursor_in_range, C20_elements_at_fire / _fixed_silent / _pinned_zero_based (elements_at(n) is stopped beyond num_elements(); silent on every valid position for any index bases; C20_elements_at_rebased_refuted for the code before 4998992); C20_assign_fire (every overload class of view assignment, move-assignment, swap and array_ref assignment betwe"
              "en ANY two views of different extents aborts before the copy loop), C20_assign_base_irrelevant (the verdict is"
              " a function of the two layouts only, never of the base pointers), C20_assign_aliasing_exact (two views of ONE "
              "array reached by two view programs are stopped exactly when their extensions differ), C20_violating_ops_fire ("
@@ -233,7 +233,7 @@ CHECKS = {
         design_ref="5/C20", technique="Coq proof (assertion predicates beside every modelled operation; invariants by induction over "
                                       "operation lists; guarded-execution semantics with a configuration switch; lifecycle: assertion predicates over the "
                                       "array objects of Model/Life.v, induction over histories with the ownership invariant) + three-configuration "
-                                      "differential of valid programs + forked death tests compared with the extracted model; assertion-site coverage measured with a gcov build of the unchanged harness sources (thorough tier, evidence assertion_sites_*)",
+                                      "differential of valid programs + forked death tests compared with the extracted model (13 entry points x 21 receiver kinds: a matrix of all cells for rank 1..4 with and without index bases on every run); assertion-site coverage measured with a gcov build of the unchanged harness sources (thorough tier, evidence assertion_sites_*)",
         note="assertion messages are recognised by glibc's assert() format; harness roots have non-null base pointers (null-base "
              "assertion: probe + known finding); faulted lifecycle histories and allocator-trait configurations other than the default are not run in three configurations; Coq 8.16.1 kernel, Print "
              "Assumptions in the evidence; open known findings: null-base slice of an empty owning array; re-based diagonal (= KF-C19-diagonal-rebased); 16 of the 132 assertion sites are never evaluated by any input (cannot be instantiated, do not compile, _MSC_VER-only, need an execution policy, or never selected: list in notes/REPORT_C20.txt FOLLOW-UP 3 D); violating calls are run on the default configuration only"),
@@ -254,7 +254,7 @@ CHECKS = {
         design_ref="5/C09", technique='Coq proof (ownership invariant of an executable lifecycle machine, Hoare triples with an exceptional postcondition, induction over histories and loops) + extracted-model vs library differential on random histories with an instrumented element type and allocator',
         note="Coq 8.16.1 kernel; every property theorem 'Closed under the global context'; one model coq/Model/Life.v (26 entry points as programs over checked micro-steps; element type given by three traits: trivially default constructible, trivially destructible, trivially copyable) shared by C04/C06/C08/C09/C10; the refinement of the machine to the reference interpreter over element VALUES is proved (C04_value_semantics, one commuting square per operation) and additionally evaluated on every generated history; hypotheses: every extensions argument has D dimensions, value lists have the announced length; faults: single injection point per run; rank 0 through Model/LifeRank0.v; ExtrOcamlBasic extraction; g++ 12/libstdc++"),
     "C10": dict(
-        text="Theorems C10_block_stays_with_allocator (every release goes through an allocator equal to the producer: part of the checked interpreter's invariant, for every history and all 16 trait configurations) and the propagation theorems: copy construction uses select_on_container_copy_construction, copy assignment / move assignment / swap replace the allocator exactly under POCCA / POCMA / POCS, allocator-extended constructors use the supplied allocator, moves between unequal non-propagating allocators move elements, never the block. Tie on the trait configurations plus std::pmr arrays over two logging memory resources.",
+        text="Theorems C10_block_stays_with_allocator (every release goes through an allocator equal to the producer: part of the checked interpreter's invariant, for every history and all 16 trait configurations) and the propagation theorems: copy construction uses select_on_container_copy_construction, copy assignment / move assignment / swap replace the allocator exactly under POCCA / POCMA / POCS, allocator-extended constructors use the supplied allocator, moves between unequal non-propagating allocators move elements, never the block. Tie on the trait configurations plus std::pmr arrays over two logging memory resources. Dimensionality 0 (Properties_Rank0.v, Model/LifeRank0.v; a rank-0 array always owns one element, so nothing ever detaches a block: move construction and assignment move the ELEMENT): C10_rank0_block_stays_with_allocator (and _under_faults), C10_rank0_block_owner_is_own_allocator, C10_rank0_copy_ctor_uses_select_on_container_copy_construction, C10_rank0_move_ctor_takes_source_allocator, C10_rank0_ctor_uses_supplied_allocator (nine constructors), C10_rank0_copy_assign_follows_pocca and C10_rank0_move_assign_follows_pocma, C10_rank0_swap_follows_pocs, C10_rank0_std_swap_is_three_moves, C10_rank0_elementwise_keeps_allocators; all for every one of the 16 trait combinations x three select_on_container_copy_construction behaviours. Tie: h_rank0 in the 16 trait configurations x {socc same, child} and std::pmr over logging resources, allocator id and per-instance ledger compared after every operation.",
         design_ref="5/C10", technique='Coq proof (ownership invariant of an executable lifecycle machine, Hoare triples with an exceptional postcondition, induction over histories and loops) + extracted-model vs library differential on random histories with an instrumented element type and allocator',
         note="Coq 8.16.1 kernel; every property theorem 'Closed under the global context'; one model coq/Model/Life.v (26 entry points as programs over checked micro-steps; element type given by three traits: trivially default constructible, trivially destructible, trivially copyable) shared by C04/C06/C08/C09/C10; the refinement of the machine to the reference interpreter over element VALUES is proved (C04_value_semantics, one commuting square per operation) and additionally evaluated on every generated history; hypotheses: every extensions argument has D dimensions, value lists have the announced length; faults: single injection point per run; rank 0 through Model/LifeRank0.v; ExtrOcamlBasic extraction; g++ 12/libstdc++"),
 }
